@@ -337,13 +337,20 @@ func wideObject(r *rand.Rand, n int, long bool, dupOf int, respell bool) []byte 
 	return []byte(sb.String())
 }
 
-// nested builds a text nested exactly depth deep; pattern chooses array/object per level.
+// nested builds a text nested exactly depth deep; pattern chooses object (true) or
+// array (false) per level.  With leaf == "" the innermost container is empty,
+// otherwise leaf is the single element / member value of the innermost container.
 func nested(depth int, pattern func(i int) bool, leaf string) []byte {
 	var sb strings.Builder
 	closers := make([]byte, 0, depth)
 	for i := 0; i < depth; i++ {
+		last := i == depth-1
 		if pattern(i) {
-			sb.WriteString(`{"a":`)
+			if last && leaf == "" {
+				sb.WriteByte('{')
+			} else {
+				sb.WriteString(`{"a":`)
+			}
 			closers = append(closers, '}')
 		} else {
 			sb.WriteByte('[')
